@@ -610,6 +610,13 @@ impl Scenario for Hostile {
                             }
                         }
                     }
+                    if !small && r.chance(1, 3) {
+                        // long names that are not ASCII: the name accessors (mangled / enclosed / raw / decoded)
+                        let k = r.usize_below(l.entries.len());
+                        let (nm, utf8) = awkward_long_name(r);
+                        l.entries[k].name = Hex(nm);
+                        l.entries[k].utf8 = utf8;
+                    }
                     // make the AES / ZipCrypto cases frequent: they own several of the weak points
                     if r.chance(1, 3) {
                         l.entries[0].enc = Some(Enc::Aes { pw: Hex(b"pw".to_vec()), strength: r.range(1, 3) as u8, version: r.range(1, 2) as u8, salt_seed: 5 });
